@@ -274,6 +274,20 @@ type SolverResult struct {
 	Output  string // raw output of the winning (or last) solver
 	Model   string // text after the first line when sat
 	All     map[string]string
+	// thorough tier: a second, different solver binary that gave the same / the opposite definite answer within the
+	// confirmation window after the first one
+	ConfirmedBy  string
+	Contradicted string
+}
+
+// confirmWindow: how long (seconds) Solve keeps listening for a second opinion after the first definite answer; 0 = off.
+var confirmWindow = 0
+
+func solverFamily(name string) string {
+	if i := strings.Index(name, "/"); i >= 0 {
+		name = name[:i]
+	}
+	return name
 }
 
 type backend struct {
@@ -425,14 +439,40 @@ func Solve(query string, timeoutS int, seed int, only []string) SolverResult {
 		all[r.name] = truncate(r.out, 400)
 		total := time.Since(t0).Seconds()
 		switch first {
-		case "unsat":
-			return SolverResult{Answer: Unsat, Backend: r.name, Seconds: total, Output: truncate(r.out, 2000), All: all}
-		case "sat":
-			rest := ""
-			if i := strings.Index(r.out, "\n"); i >= 0 {
-				rest = r.out[i+1:]
+		case "unsat", "sat":
+			var sr SolverResult
+			if first == "unsat" {
+				sr = SolverResult{Answer: Unsat, Backend: r.name, Seconds: total, Output: truncate(r.out, 2000), All: all}
+			} else {
+				rest := ""
+				if i := strings.Index(r.out, "\n"); i >= 0 {
+					rest = r.out[i+1:]
+				}
+				sr = SolverResult{Answer: Sat, Backend: r.name, Seconds: total, Output: truncate(r.out, 20000), Model: rest, All: all}
 			}
-			return SolverResult{Answer: Sat, Backend: r.name, Seconds: total, Output: truncate(r.out, 20000), Model: rest, All: all}
+			if confirmWindow > 0 && pending > 0 {
+				// second opinion from a different solver binary (thorough tier)
+				deadline := time.After(time.Duration(confirmWindow) * time.Second)
+				for pending > 0 && sr.ConfirmedBy == "" && sr.Contradicted == "" {
+					select {
+					case r2 := <-ch:
+						pending--
+						f2 := firstLine(r2.out)
+						all[r2.name] = truncate(r2.out, 400)
+						if solverFamily(r2.name) == solverFamily(r.name) || (f2 != "sat" && f2 != "unsat") {
+							continue
+						}
+						if f2 == first {
+							sr.ConfirmedBy = r2.name
+						} else {
+							sr.Contradicted = r2.name + " answered " + f2
+						}
+					case <-deadline:
+						pending = 0
+					}
+				}
+			}
+			return sr
 		default:
 			final.Backend = r.name
 			final.Seconds = total
